@@ -236,7 +236,11 @@ class Baton:
 # ---------------------------------------------------------------------------
 # request kinds
 
-KINDS = ['plain', 'body', 'raise', 'nf', 'crash', 'json404', 'form', 'hdrs', 'mutq', 'latin', 'badmp_json', 'signed', 'forged', 'stat_s', 'stat_n', 'rewrite']
+KINDS = ['plain', 'body', 'raise', 'nf', 'crash', 'json404', 'form', 'hdrs', 'mutq', 'latin', 'badmp_json', 'signed', 'forged', 'stat_s', 'stat_n', 'rewrite', 'tenant', 'whoami']
+
+
+def tenant_of_host(host):
+    return {'a.example': 'ta', 'b.example': 'tb'}.get(host)
 
 
 def make_app(config=None, app=None):
@@ -245,8 +249,24 @@ def make_app(config=None, app=None):
     With `app` given (the module-level default application) the handlers are installed on it."""
     from ombott import Ombott, HTTPResponse
     if app is None:
-        app = Ombott(config)
+        # every application is a two-tenant application: the domain_map option prefixes the path with the tenant of the Host
+        cfg = dict(config or {})
+        cfg.setdefault('domain_map', tenant_of_host)
+        cfg.setdefault('app_name_header', 'HTTP_X_TENANT_APP')
+        app = Ombott(cfg)
     rq, rs = app.request, app.response
+
+    for tenant in ('ta', 'tb'):
+        def who(name, tenant=tenant):
+            rs.headers['X-Tenant'] = tenant
+            rs.set_cookie('tenant', tenant)
+            return json.dumps([tenant, name, rq.path, rq.fullpath, rq.headers.get('Host')])
+        app.route('/%s/who/<name>' % tenant, callback=who)
+
+    @app.route('/whoami/<name>')
+    def whoami(name):
+        # what the request object says about the application it belongs to
+        return json.dumps([name, rq.app is app, sorted(r for r in rq.app.routes if 'whoami' in r or 'only-here' in r)])
 
     def seen():
         return {'path': rq.path, 'q': dict(rq.query), 'hdr': rq.headers.get('X-Id'), 'cookies': dict(rq.cookies),
@@ -403,7 +423,10 @@ def environ_for(kind, name):
         env['QUERY_STRING'] = 'page=2&tag=x&tag=y'          # the same query string for every client
     elif kind == 'latin':
         env['PATH_INFO'] = '/latin/' + name
-    elif kind in ('stat_s', 'stat_n', 'listen', 'assign', 'rewrite'):
+    elif kind == 'tenant':
+        env['PATH_INFO'] = '/who/' + name
+        env['HTTP_HOST'] = 'a.example' if sum(map(ord, name)) % 2 else 'b.example'
+    elif kind in ('stat_s', 'stat_n', 'listen', 'assign', 'rewrite', 'whoami'):
         env['PATH_INFO'] = '/%s/%s' % (kind, name)
     elif kind == 'signed':
         from ombott.common_helpers import cookie_encode
